@@ -193,6 +193,21 @@ func (g *fgen) step() bool {
 		g.bind(lang.Bin(op, I, g.use(v), r), I, true)
 		g.labels["arithmetic with a typed operand"] = true
 	case 1: // comparison
+		if g.n(2, "eqTwoVars") == 0 {
+			// = / <> between two variables of the same type: unifies them (no typed operand needed, frt.OpEqual is generic)
+			v := g.pick(func(x *gvar) bool { return !x.fn }, "eqA")
+			if v == nil {
+				return false
+			}
+			w := g.pick(func(x *gvar) bool { return x.t.Equal(v.t) && !x.fn && x != v }, "eqB")
+			if w == nil {
+				return false
+			}
+			op := []string{"=", "<>"}[g.n(1, "eqOp2")]
+			g.bind(lang.Bin(op, B, g.use(v), g.use(w)), B, true)
+			g.labels["= between two variables (unifies their types)"] = true
+			return true
+		}
 		t := []*lang.Type{I, S}[g.n(1, "cmpType")]
 		v := g.pick(ofType(t), "cmpVar")
 		if v == nil {
@@ -301,7 +316,7 @@ func (g *fgen) step() bool {
 		g.bind(&lang.Expr{K: "tuple", T: t, Args: []*lang.Expr{g.use(v), g.use(w)}}, t, v.known && w.known)
 		g.labels["tuple construction"] = true
 	case 7: // slice literal
-		v := g.pick(func(x *gvar) bool { return !x.fn && x.t.K != "slice" }, "sliceElem")
+		v := g.pick(func(x *gvar) bool { return !x.fn }, "sliceElem")
 		if v == nil {
 			return false
 		}
@@ -478,6 +493,7 @@ func (g *fgen) step() bool {
 }
 
 var paramTypes = []*lang.Type{lang.TInt, lang.TString, lang.TBool, lang.TInt, lang.TString, lang.TSlice(lang.TInt), lang.TSlice(lang.TString),
+	lang.TSlice(lang.TInt), lang.TSlice(lang.TString), lang.TTuple(lang.TInt, lang.TString), lang.TSlice(lang.TTuple(lang.TInt, lang.TString)),
 	lang.TTuple(lang.TInt, lang.TString), lang.TRec("RecP"), lang.TUnion("UniQ"), lang.TRec("GBox", lang.TString), lang.TUnion("OptG", lang.TInt)}
 
 // genFunc generates one fully typed function (all annotations present).
@@ -495,11 +511,14 @@ func genFunc(rt *rapid.T, ctr *int, user []*userFn, labels map[string]bool) (*la
 			continue
 		}
 		pt := paramTypes[g.n(len(paramTypes)-1, "ptype")]
+		if len(f.Params) > 0 && g.n(2, "sameAsPrev") == 0 && f.Params[len(f.Params)-1].T.K != "func" {
+			pt = f.Params[len(f.Params)-1].T // two parameters of one type: they can be unified with each other later
+		}
 		annot := g.n(2, "annot") == 0
 		f.Params = append(f.Params, lang.Param{Name: name, T: pt, Annot: annot})
 		g.vars = append(g.vars, &gvar{name: name, t: pt, known: annot})
 	}
-	nst := 1 + g.n(5, "nstmts")
+	nst := 1 + g.n(7, "nstmts")
 	for i, tries := 0, 0; i < nst && tries < 40; tries++ {
 		if g.step() {
 			i++
@@ -547,6 +566,171 @@ func genFunc(rt *rapid.T, ctr *int, user []*userFn, labels map[string]bool) (*la
 		u.params = append(u.params, p.T)
 	}
 	return f, u
+}
+
+// genStagedFunc generates the "staged unification" family: two or three un-annotated parameters of
+// one structured type; in separate lets (separate inference batches) each gets uses that fix only its
+// outer shape and at most one of them a use that pins the element type; a later expression unifies
+// them (=, if/else, a slice literal, slice.Append). The principal type must carry the pinned element
+// type to every unified parameter.
+func genStagedFunc(rt *rapid.T, ctr *int, labels map[string]bool) (*lang.FuncDecl, *userFn) {
+	g := &fgen{rt: rt, ctr: ctr, labels: labels}
+	I, S, B := lang.TInt, lang.TString, lang.TBool
+	f := &lang.FuncDecl{Name: g.fresh("fn")}
+	shapes := []*lang.Type{sl(I), sl(S), lang.TTuple(I, S), sl(lang.TTuple(I, S))}
+	T := shapes[g.n(len(shapes)-1, "stagedType")]
+	np := 2 + g.n(1, "stagedParams")
+	var ps []*gvar
+	for i := 0; i < np; i++ {
+		name := g.fresh("p")
+		annot := g.n(5, "stagedAnnot") == 0
+		f.Params = append(f.Params, lang.Param{Name: name, T: T, Annot: annot})
+		v := &gvar{name: name, t: T, known: annot}
+		g.vars = append(g.vars, v)
+		ps = append(ps, v)
+	}
+	shapeUse := func(v *gvar) {
+		switch {
+		case T.K == "slice":
+			switch g.n(3, "shapeUseSlice") {
+			case 0:
+				g.bind(lang.Call("slice.Length", I, g.use(v)), I, true)
+			case 1:
+				g.bind(lang.Call("slice.IsEmpty", B, g.use(v)), B, true)
+			case 2:
+				g.bind(lang.Call("slice.Tail", T, g.use(v)), T, v.known)
+			default:
+				g.bind(lang.Call("slice.Take", T, lang.Int(1), g.use(v)), T, v.known)
+			}
+		default:
+			if g.n(1, "shapeUseTuple") == 0 {
+				g.bind(lang.Call("frt.Fst", T.E[0], g.use(v)), T.E[0], v.known)
+			} else {
+				g.bind(lang.Call("frt.Snd", T.E[1], g.use(v)), T.E[1], v.known)
+			}
+		}
+	}
+	pinUse := func(v *gvar) {
+		x := g.fresh("x")
+		switch {
+		case T.Equal(sl(I)):
+			if g.n(1, "pinSliceInt") == 0 {
+				g.bind(lang.Bin("+", I, lang.Call("slice.Head", I, g.use(v)), lang.Int(1)), I, true)
+			} else {
+				g.bind(lang.Call("slice.Map", T, lam([]lang.Param{{Name: x, T: I}}, lang.Bin("+", I, lang.Var(x, I), lang.Int(1)), fn(ts(I), I)), g.use(v)), T, true)
+			}
+		case T.Equal(sl(S)):
+			if g.n(1, "pinSliceStr") == 0 {
+				g.bind(lang.Call("strings.Concat", S, lang.Str(","), g.use(v)), S, true)
+			} else {
+				g.bind(lang.Bin("+", S, lang.Call("slice.Head", S, g.use(v)), lang.Str("s")), S, true)
+			}
+		case T.K == "tuple":
+			g.bind(lang.Bin("+", I, lang.Call("frt.Fst", I, g.use(v)), lang.Int(1)), I, true)
+			if g.n(1, "pinBothHalves") == 0 {
+				g.bind(lang.Call("strings.Length", I, lang.Call("frt.Snd", S, g.use(v))), I, true)
+			}
+		default: // [](int*string)
+			h := g.bind(lang.Call("slice.Head", T.Elem(), g.use(v)), T.Elem(), v.known)
+			g.bind(lang.Bin("+", I, lang.Call("frt.Fst", I, g.use(h)), lang.Int(1)), I, true)
+			g.bind(lang.Bin("+", S, lang.Call("frt.Snd", S, g.use(h)), lang.Str("s")), S, true)
+		}
+	}
+	// the stages, in a drawn order
+	type stage struct {
+		v   *gvar
+		pin bool
+	}
+	var stages []stage
+	pinned := -1
+	if g.n(3, "noPin") != 0 {
+		pinned = g.n(np-1, "pinnedParam")
+	}
+	for i, v := range ps {
+		for k := g.n(2, "nShapeUses"); k > 0; k-- {
+			stages = append(stages, stage{v, false})
+		}
+		if i == pinned {
+			stages = append(stages, stage{v, true})
+		}
+	}
+	order := rapid.Permutation(seqN(len(stages))).Draw(rt, "stageOrder")
+	for _, i := range order {
+		if stages[i].pin {
+			pinUse(stages[i].v)
+		} else {
+			shapeUse(stages[i].v)
+		}
+	}
+	// the unifier, in its own let
+	a0, b0 := ps[0], ps[1]
+	if np == 3 && g.n(1, "unifyLastTwo") == 0 {
+		a0, b0 = ps[1], ps[2]
+	}
+	switch g.n(3, "unifier") {
+	case 0:
+		g.bind(lang.Bin([]string{"=", "<>"}[g.n(1, "unifyEq")], B, g.use(a0), g.use(b0)), B, true)
+	case 1:
+		c := g.bind(lang.Bin(">", B, lang.Int(int64(g.n(9, "condLit"))), lang.Int(3)), B, true)
+		e := &lang.Expr{K: "if", T: T, Args: []*lang.Expr{g.use(c)}, Then: lang.Blk(g.use(a0)), Else: lang.Blk(g.use(b0))}
+		g.bind(e, T, a0.known || b0.known)
+	case 2:
+		g.bind(&lang.Expr{K: "slice", T: sl(T), Args: []*lang.Expr{g.use(a0), g.use(b0)}}, sl(T), a0.known || b0.known)
+	default:
+		if T.K == "slice" {
+			g.bind(lang.Call("slice.Append", T, g.use(a0), g.use(b0)), T, a0.known || b0.known)
+		} else {
+			g.bind(lang.Bin("=", B, g.use(a0), g.use(b0)), B, true)
+		}
+	}
+	if np == 3 && g.n(1, "chainUnify") == 0 {
+		g.bind(lang.Bin("=", B, g.use(ps[0]), g.use(ps[2])), B, true)
+	}
+	labels["staged unification across separate lets"] = true
+	if pinned >= 0 {
+		labels["staged unification with one pinned parameter"] = true
+	}
+	// result: every unused let-bound variable
+	var parts []*lang.Expr
+	for _, v := range g.vars {
+		if !v.used && strings.HasPrefix(v.name, "v") {
+			parts = append(parts, g.use(v))
+		}
+	}
+	if len(parts) == 0 {
+		parts = append(parts, lang.Int(0))
+	}
+	for len(parts) > 1 {
+		var next []*lang.Expr
+		for i := 0; i < len(parts); i += 3 {
+			grp := parts[i:min(i+3, len(parts))]
+			if len(grp) == 1 {
+				next = append(next, grp[0])
+				continue
+			}
+			var tsx []*lang.Type
+			for _, p := range grp {
+				tsx = append(tsx, p.T)
+			}
+			next = append(next, &lang.Expr{K: "tuple", T: lang.TTuple(tsx...), Args: append([]*lang.Expr{}, grp...)})
+		}
+		parts = next
+	}
+	f.Ret = parts[0].T
+	f.Body = &lang.Block{Stmts: g.stmts, Final: parts[0]}
+	u := &userFn{name: f.Name, ret: f.Ret}
+	for _, p := range f.Params {
+		u.params = append(u.params, p.T)
+	}
+	return f, u
+}
+
+func seqN(n int) []int {
+	out := make([]int, n)
+	for i := range out {
+		out[i] = i
+	}
+	return out
 }
 
 // --- reading fc's signatures ---------------------------------------------------------------------------
@@ -787,7 +971,13 @@ func genCase(rt *rapid.T) (Case, map[string]bool, int, error) {
 	var user []*userFn
 	nf := 3 + rapid.IntRange(0, 6).Draw(rt, "nfuncs")
 	for i := 0; i < nf; i++ {
-		f, u := genFunc(rt, &ctr, user, labels)
+		var f *lang.FuncDecl
+		var u *userFn
+		if rapid.IntRange(0, 2).Draw(rt, "staged") == 0 {
+			f, u = genStagedFunc(rt, &ctr, labels)
+		} else {
+			f, u = genFunc(rt, &ctr, user, labels)
+		}
 		funcs = append(funcs, f)
 		user = append(user, u)
 	}
